@@ -48,6 +48,7 @@ type World struct {
 	ghost        map[string]Value
 	calls        []CallRec
 	chainRev     map[*T]*T // chain-id term -> revision (contexts made by NewCtx)
+	intCells     map[*T]*T // value written by StSetInt -> the integer it encodes
 }
 
 type readEntry struct {
@@ -294,6 +295,37 @@ func init() {
 	})
 	reg(vp+"StDel", func(e *Engine, fn *ssa.Function, a []Value) Value {
 		e.world.set(ctxOf(a[0]), constStr(a[1], "store name"), toSeq(a[2]), StrConst(""), true)
+		return nil
+	})
+	// Non-negative integer cells (bank-model balances): "" is zero, anything else is the canonical decimal of a positive
+	// integer (representation invariant of the cell, asserted as a fact about every value read). No branching.
+	reg(vp+"StGetInt", func(e *Engine, fn *ssa.Function, a []Value) Value {
+		v := e.world.get(ctxOf(a[0]), constStr(a[1], "store name"), toSeq(a[2]))
+		if x, ok := e.world.intCells[v]; ok {
+			return mkInt(x)
+		}
+		x := UF("intdec", IntS, v)
+		e.addAxiom(fmt.Sprintf("intcell:%d", v.id), Or(Eq(v, StrConst("")), And(Eq(UF("intenc", StrS, x), v), IntCmp(">", x, IntConst(0)))))
+		return mkInt(Ite(Eq(v, StrConst("")), IntConst(0), x))
+	})
+	reg(vp+"StSetInt", func(e *Engine, fn *ssa.Function, a []Value) Value {
+		x := intOfVal(a[3]).V
+		var val *T
+		if x.IsConst() {
+			val = StrConst("")
+			if x.Int.Sign() != 0 {
+				val = StrConst(x.Int.String())
+			}
+		} else {
+			enc := UF("intenc", StrS, x)
+			e.addAxiom(fmt.Sprintf("intenc:%d", x.id), And(Eq(UF("intdec", IntS, enc), x), Not(Eq(enc, StrConst("")))))
+			val = Ite(Eq(x, IntConst(0)), StrConst(""), enc)
+		}
+		if e.world.intCells == nil {
+			e.world.intCells = map[*T]*T{}
+		}
+		e.world.intCells[val] = x
+		e.world.set(ctxOf(a[0]), constStr(a[1], "store name"), toSeq(a[2]), val, false)
 		return nil
 	})
 	reg(vp+"StSnapshot", func(e *Engine, fn *ssa.Function, a []Value) Value {
